@@ -14,7 +14,7 @@ HARNESS = os.path.join(VERIF, "harness")
 WORK = os.path.join(VERIF, "work")
 EVID = os.path.join(VERIF, "evidence")
 REPLAYS = os.path.join(EVID, "replays")
-REPO = "/repo"
+REPO = os.environ.get("VERIF_REPO", "/repo")      # the tree under verification (a snapshot of it for background sweeps)
 
 TOOL_ERROR = 2
 
@@ -67,6 +67,19 @@ def build_harness(config="default", allow_fail=False):
     """cargo build of the harness against /repo's working tree (hooks on via .cargo/config.toml).
     Returns the path of the binary copy for this configuration, or None if allow_fail and the build failed."""
     os.makedirs(os.path.join(WORK, "bin"), exist_ok=True)
+    global HARNESS
+    if REPO != "/repo" and not HARNESS.startswith(WORK):
+        # a copy of the harness whose path dependencies point at the other tree (own target directory)
+        alt = os.path.join(WORK, "harness-alt")
+        os.makedirs(alt, exist_ok=True)
+        for item in ("src", ".cargo"):
+            shutil.rmtree(os.path.join(alt, item), ignore_errors=True)
+            shutil.copytree(os.path.join(HARNESS, item), os.path.join(alt, item))
+        with open(os.path.join(HARNESS, "Cargo.toml")) as f:
+            toml = f.read().replace('"/repo/', '"' + REPO.rstrip("/") + "/")
+        with open(os.path.join(alt, "Cargo.toml"), "w") as f:
+            f.write(toml)
+        HARNESS = alt
     lock = os.path.join(HARNESS, "Cargo.lock")
     if not os.path.exists(lock):
         shutil.copy(os.path.join(REPO, "Cargo.lock"), lock)
